@@ -1,6 +1,6 @@
 (* Props/C13.v — loading cache: one load in flight per key, result shared, failures not cached *)
 From Coq Require Import ZArith List Bool.
-From Verif Require Import Base.Word64 Model.Store Model.Flight Proof.FlightP.
+From Verif Require Import Base.Word64 Model.Store Model.Flight Proof.FlightP Model.FlightFine Proof.FlightFineP Gen.Consts.
 Import ListNotations.
 Open Scope Z_scope.
 
@@ -50,3 +50,29 @@ Example c13_example :
   let '(f5, o5) := f_wake f4 2 in
   leads (fget f2 1) 1 7 /\ fget f2 2 = FJoin 1 /\ o4 = [0; 42] /\ o5 = [0; 42] /\ tab_get f5 7 = None /\ fpool f5 = [1].
 Proof. vm_compute. repeat split. left. reflexivity. Qed.
+
+(* ---- "every joiner receives the joined invocation's result, never another call's through a pooled record".
+   Model/FlightFine.v splits waking up, copying the result and dropping the reference into separate steps, keeps the
+   reference counter of the code, and adds ghost generations.  The order "copy, then drop" is read off
+   singleflight.go on every run. *)
+Theorem c13_copy_before_release_in_source : c_flight_copy_before_release = true.
+Proof. exact scraped_order. Qed.
+Print Assumptions c13_copy_before_release_in_source.
+
+(* for every schedule: whoever holds a reference to record c of generation g (leader or waiter, up to and including
+   the step that copies the result) finds the record still in generation g, outside the pool, with a positive
+   counter - it has not been issued to another call *)
+Theorem c13_no_reissue_under_holder : forall sched p c g,
+  let s := fold_left (g_act c_flight_copy_before_release) sched fine0 in
+  holder (fpc s p) = Some (c, g) -> ggen (frec s c) = g /\ ~ In c (fpoolg s) /\ 1 <= gdups (frec s c).
+Proof. exact no_reissue_as_scraped. Qed.
+Print Assumptions c13_no_reissue_under_holder.
+
+(* the other order is wrong: a waiter that drops its reference first is handed the result of another call *)
+Theorem c13_release_before_copy_refuted :
+  let sched := [GEnter 1 7 0; GEnter 2 7 0; GRanA 1 0 111; GFinish 1; GStep 2; GStep 2; GStep 1;
+                GEnter 3 8 1; GRanA 3 0 222; GStep 2] in
+  got_own_result (fold_left (g_act false) sched fine0) 2 = false /\
+  got_own_result (fold_left (g_act true) sched fine0) 2 = true.
+Proof. exact release_first_refuted. Qed.
+Print Assumptions c13_release_before_copy_refuted.
